@@ -342,7 +342,10 @@ func genTimeSeq(r *hx.Rand) []uint64 {
 		for i := 1; i < n; i++ {
 			d := uint64(r.Intn(1000)) * pow10[k]
 			if i == pos {
-				d = []uint64{1<<60 - 1, 1 << 60, 1<<60 + 1, 1 << 63, ^uint64(0)}[r.Intn(5)]
+				// incl. gaps above 2^60 that share the power-of-ten factor of the small deltas (a stray
+				// point at the epoch next to present-day second-precision points): the raw branch must
+				// store unscaled deltas
+				d = []uint64{1<<60 - 1, 1 << 60, 1<<60 + 1, 1 << 63, ^uint64(0), 1600000000000000000, 2000000000000000000}[r.Intn(7)]
 			}
 			vals = append(vals, vals[i-1]+d)
 		}
@@ -2288,6 +2291,9 @@ func designed(o *hx.Out) {
 		runInt(o, seqDesc{Vals: []uint64{9, 9 + uint64(zzDec(v)), 9, 12}}, "designed")
 	}
 	runS8b(o, seqDesc{}, "designed")
+	// a gap above 2^60 (raw branch) among deltas that share a factor of ten and are not all equal
+	runTime(o, seqDesc{Vals: []uint64{0, 1600000000000000000, 1600000001000000000, 1600000003000000000}}, "designed")
+	runTime(o, seqDesc{Vals: []uint64{1000, 1600000000000, 1600000060000, 3600000000000001000}}, "designed")
 	runTime(o, seqDesc{}, "designed")
 	runInt(o, seqDesc{}, "designed")
 	runFloat(o, seqDesc{}, "designed")
